@@ -111,11 +111,27 @@ func c17BaseDoc(seed uint64, workDir string) *document.Document {
 
 // ---- sequential purity / repeatability / independence ----
 
+// c17Chain returns the template and the objects it was resolved against, nearest first; ok is false when two objects of the chain
+// carry the same name (a fresh engine cannot hold both).
+func c17Chain(l *c17Loaded) ([]*c17Loaded, bool) {
+	var chain []*c17Loaded
+	seen := map[string]bool{}
+	for p := l; p != nil && len(chain) < 10; p = p.up {
+		if seen[p.def.name] {
+			return nil, false
+		}
+		seen[p.def.name] = true
+		chain = append(chain, p)
+	}
+	return chain, true
+}
+
 type c17Loaded struct {
 	def    tplDef
 	data   *document.TemplateData
 	result map[string]string // recorded right after loading
 	base   *document.Document
+	up     *c17Loaded // the template object this one extended when it was loaded (stays its base even if that name is replaced or removed later)
 }
 
 func c17Sequential(c *core.Ctx, r *rng.R) *core.Result {
@@ -208,15 +224,12 @@ func c17Sequential(c *core.Ctx, r *rng.R) *core.Result {
 			version++
 			def := tplDef{name: fmt.Sprintf("t%d", r.Intn(6)), version: version}
 			if old := loaded[def.name]; old != nil {
-				// replacing a template that others extend is left out: what the children then show is not specified
-				hasChild := false
+				// replacing a template that others extend: the children were resolved against the old object and must keep rendering what they rendered
 				for _, l := range loaded {
 					if l.def.parent == def.name {
-						hasChild = true
+						l.def.parent = fmt.Sprintf("#replaced:%s:v%d", def.name, old.def.version)
+						res.Count("bases_replaced_under_children", 1)
 					}
-				}
-				if hasChild {
-					break
 				}
 			}
 			var cands []string
@@ -266,8 +279,36 @@ func c17Sequential(c *core.Ctx, r *rng.R) *core.Result {
 				order = append(order, def.name)
 			}
 			l := &c17Loaded{def: def, data: c17Data(r)}
+			if def.parent != "" {
+				l.up = loaded[def.parent]
+			}
 			loaded[def.name] = l
 			l.result, _ = render(def.name, l.data, false)
+			// alone baseline: the same chain of definitions loaded into a fresh engine renders the same
+			if chain, ok := c17Chain(l); ok && l.result != nil {
+				fresh := document.NewTemplateEngine()
+				var fd *document.Document
+				var ferr error
+				cg := core.Catch(func() {
+					for j := len(chain) - 1; j >= 0; j-- {
+						if _, ferr = fresh.LoadTemplate(chain[j].def.name, chain[j].def.content); ferr != nil {
+							return
+						}
+					}
+					fd, ferr = fresh.RenderToDocument(def.name, l.data)
+				})
+				if cg == nil && ferr == nil && fd != nil {
+					res.Count("alone_baselines_compared", 1)
+					alone, _ := renderOutcome(fd)
+					if part, df := canonDiff(alone, l.result); part != "" {
+						cls := "root"
+						if len(chain) > 1 {
+							cls = "inheriting"
+						}
+						res.Add("independence/alone-baseline/"+cls+"/differs-from-fresh-engine", fmt.Sprintf("template %s (chain of %d) renders differently in this engine than in a fresh engine holding only its own chain: part %s: %s", def.name, len(chain), part, df), note())
+					}
+				}
+			}
 			recheck("LoadTemplate", def.name)
 		case k < 68: // load a document template
 			version++
@@ -630,7 +671,7 @@ func init() {
 		},
 		RaceCases:      func(t string) int { return tierN(t, 150, 5000) },
 		RaceClass:      c17RaceClass,
-		Assume:         []string{"replacing or removing a template that other loaded templates extend is not generated for the independence oracle (what the children then show is not specified)", "callers do not mutate TemplateData while rendering", "the race detector only sees the interleavings that occurred"},
+		Assume:         []string{"a template keeps the base object it was resolved against when it was loaded: replacing or removing that name later must not change what it renders", "callers do not mutate TemplateData while rendering", "the race detector only sees the interleavings that occurred"},
 		CrashIsFinding: true,
 		CaseTimeoutS:   120,
 		MinNontrivial:  200,
